@@ -287,10 +287,10 @@ func (e *env) processPuts() {
 		// private material must be recoverable only with the PRIVATE passphrase
 		if strings.Contains(cls, "enc(cryptoPub,xprv") || strings.Contains(cls, "enc(masterPub,xprv") || strings.Contains(cls, "enc(cryptoPub,key(cryptoPriv") ||
 			strings.Contains(cls, "enc(masterPub,key(cryptoPriv") || strings.Contains(cls, "enc(cryptoPub,seed") || strings.Contains(cls, "enc(masterPub,seed") {
-			e.fail("C04", "private-material-under-public-key-"+name, "the value stored under %q is %s: private key material sealed under the public hierarchy (recoverable with the public passphrase alone)", name, cls)
+			e.failAlways("C04", "private-material-under-public-key-"+name, "the value stored under %q is %s: private key material sealed under the public hierarchy (recoverable with the public passphrase alone)", name, cls)
 		}
 		if strings.HasPrefix(cls, "xprv") || strings.HasPrefix(cls, "key(") || cls == "seed" || strings.HasPrefix(cls, "pair(xprv") || strings.Contains(cls, ",xprv[") && strings.HasPrefix(cls, "pair(") && !strings.Contains(cls, "enc(") {
-			e.fail("C04", "secret-stored-in-clear-"+name, "the value stored under %q is %s in the clear", name, cls)
+			e.failAlways("C04", "secret-stored-in-clear-"+name, "the value stored under %q is %s in the clear", name, cls)
 		}
 	}
 }
@@ -303,7 +303,7 @@ func (e *env) scan(where string, data []byte) {
 		}
 		e.h.Res.OracleEvals++
 		if bytes.Contains(data, sec) || bytes.Contains(data, []byte(hex.EncodeToString(sec))) {
-			e.fail("C04", "secret-in-"+strings.SplitN(where, ":", 2)[0]+"-"+what, "%s contains %s in clear form", where, what)
+			e.failAlways("C04", "secret-in-"+strings.SplitN(where, ":", 2)[0]+"-"+what, "%s contains %s in clear form", where, what)
 		}
 	}
 	for _, p := range e.passes[:5] {
@@ -457,4 +457,8 @@ func runSecrecy(e *env) {
 			h.Sample("secrecy history: " + strings.Join(hist, " ; "))
 		}
 	}
+}
+
+func (e *env) failAlways(prop, key, format string, a ...interface{}) {
+	e.h.Fail(prop+":"+key, fmt.Sprintf(format, a...))
 }
